@@ -61,6 +61,32 @@ def gen_history(rng, tier):
     return ops
 
 
+def spine_history(rng, side=None, plen=None):
+    """dense shape: under a prefix p the keys p+x for the nine bytes x whose bit paths form a spine of eight consecutive
+    branch nodes ending directly in a leaf (all-ones side: 7f bf df ef f7 fb fd fe ff; all-zeros side: 80 40 20 10 08 04 02 01
+    00). Sparse key sets always put a kv node on such a path, so lookups of p itself (never stored; its bits end exactly at the
+    top branch) run down a pure branch chain only here."""
+    side = side or rng.choice(["ones", "zeros"])
+    xs = [0xFF ^ (1 << i) for i in range(8)] + [0xFF] if side == "ones" else [1 << i for i in range(8)] + [0x00]
+    p = bytes(rng.choice(BX.ALPHA) if hasattr(BX, "ALPHA") else rng.randrange(256) for _ in range(plen or rng.randint(1, 2)))
+    rng.shuffle(xs)
+    ops = []
+    for x in xs:
+        ops.append(("set", p + bytes([x]), bytes([0x61 + (x % 7)]) * rng.choice([1, 3, 40])))
+    probes = [p, p[:-1] or b"\x00", p + b"\xff", p + b"\x00", p + b"\xff\x00", p + b"\x7f", p + b"\x80"]
+    for k in probes:
+        ops.append(("get", k))
+        ops.append(("exists", k))
+    ops.append(("state",))
+    ops.append(("set", p, b"shadow"))          # refused: p is a proper prefix of stored keys
+    ops.append(("delete", p))
+    ops.append(("get", p))
+    ops.append(("state",))
+    victim = p + bytes([xs[0]])
+    ops += [("delete", victim), ("get", victim), ("get", p), ("exists", p), ("state",)]
+    return ops
+
+
 def oracle(ops, outs):
     """prefix-free dict with the refusal rule; returns (violation|None, checkpoints)"""
     m = {}
@@ -204,7 +230,9 @@ def check(tier, seed):
     R.gate = C.proof_gate("C12")
     rng = random.Random(seed)
     n = 150 if tier == "quick" else 2500
-    cases = corpus() + [gen_history(rng, tier) for _ in range(n)]
+    cases = corpus() + [spine_history(random.Random(7), "ones", 1), spine_history(random.Random(8), "zeros", 1)]
+    cases += [spine_history(rng) for _ in range(2 if tier == "quick" else 30)]
+    cases += [gen_history(rng, tier) for _ in range(n)]
     terms, spec_terms, where, term_ops = [], [], [], []
     for ci, ops in enumerate(cases):
         outs, t = BX.run_history(ops)
